@@ -26,5 +26,16 @@ CHECKS = {
           "100 ms-sleep tests cannot hit. Global deadlock freedom and kernel futex behaviour are not decided.",
   "note": "Trusted: kernel futex compare-and-block semantics; clang 14 CFG; x86-64 branch of the sources.",
   "technique": "static analysis: edge-guard / must-pass-through / provenance rules over inlined CFG facts (custom libTooling extractor)"},
+ "C04": {
+  "text": "Decides on every ConcurrentVector instantiation: memory orders on the block-table pointer (release-publishing CAS, acquire on "
+          "failure and on every concurrent-path load); in the growth slow path the fresh table is published-or-deleted exactly once on all "
+          "paths, the observed (shared) table is only ever retired, the CAS loser frees exactly the index range it created before "
+          "retry/return, creation dominates publication; who may free tables / blocks / retire lists and that the retired-table deleter "
+          "never frees element blocks (the address-stability clause); timed reclamation only behind a winning CAS and a true expiry test; "
+          "cooling constants (min diff - 1) * unit >= 64 s on a monotonic clock. All are necessary conditions reached only on losing-CAS "
+          "schedules or after 64 s, which no unit test stages. Run-time address identity, clock behaviour and timestamp wrap are not decided.",
+  "note": "Trusted: clang 14 CFG; operator new/delete; the 'counted for-loops run at least once' assumption used for dominance "
+          "through the create/delete loops (growth is only entered with block_num < expect_block_num).",
+  "technique": "static analysis: exactly-once dataflow, who-may-call, edge-guard and constant-algebra rules over CFG facts of template instantiations"},
 }
 NOT_APPLICABLE = {("C%02d" % i): PENDING for i in range(1, 21) if ("C%02d" % i) not in CHECKS}
